@@ -105,6 +105,16 @@ fn worker() {
                             && vcommon::last_panic_location().contains("cairo-lang-semantic/src/expr/compute.rs")
                         {
                             "F10-deref-replay-unwrap"
+                        } else if m.contains("cycle when querying visible_importables_in_crate_tracked") {
+                            "F12-use-crate-importables-cycle"
+                        } else if m.contains("`Result::unwrap()` on an `Err` value: DiagnosticAdded")
+                            && vcommon::last_panic_location().contains("cairo-lang-semantic/src/items/macro_call.rs")
+                        {
+                            "F13-macro-expand-unwrap"
+                        } else if m.contains("cycle when querying free_function_declaration_data") {
+                            "F14-free-function-declaration-cycle"
+                        } else if m.contains("Missing pattern in semantic model") {
+                            "F15-missing-pattern-lowering"
                         } else if m.contains("TextOffset out of range")
                             && (text.contains("\\u") || text.contains("\\x"))
                         {
